@@ -311,9 +311,12 @@ func scenarioRelay() int {
 		if ok && len(obs) == 1 {
 			relayed[c.kind+"/"+c.path.Proto+">"+obs[0].Proto]++
 		}
-		if prop == "C02" && c.kind == "response" && ok && len(obs) == 1 && i%3 == 0 {
-			// the same response once more, byte for byte (the next answer of a transaction repeats
-			// the Via lines of the previous one): it is relayed the same way again
+		if ((prop == "C02" && c.kind == "response") || (prop != "C02" && c.kind != "response")) && ok && len(obs) == 1 && i%3 == 0 {
+			// the same message once more, byte for byte (a retransmission; the next answer of a
+			// transaction repeats the Via lines of the previous one): it is relayed the same way again
+			if c.hopHost != "" {
+				c.learnedBefore = learn.get(c.path.Svc, c.hopHost)
+			}
 			w.Net.Forget(c.id)
 			if w.Send(c.path, raw, c.id) == nil && w.Barrier(c.path) {
 				obs2 := w.Net.ForCase(c.id)
@@ -357,7 +360,7 @@ func scenarioRelay() int {
 		}
 	}
 	run.Observe("oversize_responses_sent_in_between", oversize)
-	run.Observe("responses_sent_a_second_time_byte_for_byte", resent)
+	run.Observe("messages_sent_a_second_time_byte_for_byte", resent)
 	run.Observe("egress_monitor_running", w.Net.Sniffing())
 	run.Observe("responses_whose_every_packet_on_the_loopback_device_was_checked", egressJudged)
 	run.Observe("packets_seen_by_the_egress_monitor", w.Net.SnifferPackets())
@@ -1245,6 +1248,26 @@ func decorateC01(g *sip.Gen, m *sip.Msg, c *relayCase) string {
 	if g.R.Intn(3) == 0 {
 		wire.SetHeader(m, "Call-ID", g.Token(1, 40)+"@"+g.Host())
 		sig = append(sig, "callid-gen")
+	}
+	// blanks inside From / To that are the sender's own business: after the ';' of a header
+	// parameter, around its '=', and a quoted parameter value that contains "; "
+	if g.R.Intn(5) == 0 {
+		for i, h := range m.Headers {
+			cn := sip.Canon(h.Name)
+			if (cn == "from" || cn == "to") && strings.Contains(h.Value, ">;") {
+				v := h.Value
+				switch g.R.Intn(3) {
+				case 0:
+					v = strings.Replace(v, ">;", ">; ", 1)
+				case 1:
+					v = strings.Replace(v, ">;", "> ;", 1)
+				default:
+					v += ";note=\"lunch; back at 2\""
+				}
+				m.Headers[i].Value = v
+				sig = append(sig, "blanks-inside-from-to")
+			}
+		}
 	}
 	// header-name spellings of the interpreted headers
 	if g.R.Intn(3) == 0 {
